@@ -981,3 +981,13 @@ fn test_partial_derivative_simple() -> ExResult<()> {
     assert_float_eq_f64(result, 0.5403023058681398);
     Ok(())
 }
+
+/// Verification hook: names of the operators that have a derivative rule, together with
+/// whether the rule is for the binary and/or the unary operator of that name.
+#[cfg(exmex_verif)]
+pub fn verif_partial_rule_names() -> Vec<(&'static str, bool, bool)> {
+    make_partial_derivative_ops::<f64, crate::FloatOpsFactory<f64>, crate::NumberMatcher>()
+        .iter()
+        .map(|pd| (pd.repr, pd.bin_op.is_some(), pd.unary_outer_op.is_some()))
+        .collect()
+}
